@@ -17,6 +17,9 @@ pub mod resolvers;
 pub mod response;
 pub mod schema;
 pub mod validation;
+#[cfg(apollo_rs_verif)]
+#[doc(hidden)]
+pub mod verif_hooks;
 
 pub use self::executable::ExecutableDocument;
 pub use self::name::InvalidNameError;
